@@ -324,17 +324,17 @@ def check_scenario(ctx, g, plan, rows, genres, stats):
             run.violation(f"model refuses variables of {op.name.value} which the generator accepted",
                           replay_of(g, op), found_input=False)
             continue
-        _ok, gen, sig_ok, names_ok, inputs_ok, f21_ok, f10 = gr
+        _ok, gen, sig_ok, names_ok, inputs_ok, f21_ok = gr
         params, dct, locs = gen
         sig_ok, names_ok, inputs_ok = sig_ok == "t", names_ok == "t", inputs_ok == "t"
         f21_shape = f21_ok == "f"      # informational: F21 is fixed for input fields (/repo 1ef155d); no routing
         f21_ok = True
-        f10_bad = {n for (n, _t, _d), b in zip(vds, f10) if b == "f"}
+        f10_bad = set()      # F10 is fixed (/repo d163d56): no routing; a failure of that kind is a VIOLATION
         any_sig_bad |= not sig_ok
         run.dist("operations", "variables:%d" % min(len(vds), 6))
         for _n, t, has_default in vds:
             run.dist("variable_types", type_shape(t) + ("=default" if has_default else ""))
-        run.dist("guards", f"names_ok={names_ok} inputs_ok={inputs_ok} f21_shape_present={f21_shape} f10_clean={not f10_bad}")
+        run.dist("guards", f"names_ok={names_ok} inputs_ok={inputs_ok}")
         # ---- K1: signature, dict, locals
         stats["k1_methods"] += 1
         run.count()
